@@ -165,6 +165,25 @@ fn gen_case(rng: &mut Rng, extremes: bool) -> Case {
         s = B::Up;
         e = B::C;
     }
+    let mut rows = rows;
+    if kind == "range" && !extremes && rng.chance(1, 3) {
+        // a sliding frame strictly before / after the current row over clustered keys with gaps: the
+        // frame goes non-empty -> EMPTY -> non-empty inside one partition
+        let (a, b) = (1 + rng.below(3), 1 + rng.below(3));
+        let (hi, lo) = (a.max(b), a.min(b));
+        if rng.chance(1, 2) {
+            s = B::P(hi);
+            e = B::P(lo);
+        } else {
+            s = B::F(lo);
+            e = B::F(hi);
+        }
+        for r in rows.iter_mut() {
+            if r.k.is_some() && rng.chance(5, 6) {
+                r.k = Some(*rng.pick(&[0i64, 1, 2, 10, 11, 12, 13, 30, 31]));
+            }
+        }
+    }
     let (fargs_sql, fargs_sx) = match f {
         "count" | "sum" | "min" | "max" | "first_value" | "last_value" => ("v".to_string(), String::new()),
         "nth_value" => {
